@@ -27,11 +27,11 @@ PROPS = {
                  'dd.autoref Function operators: bounded only'], design_ref='DESIGN.md 7/C01'),
     'C02': P('other',
              'Second sentence of the property (reduced, ordered, regular high edges, unique table) is the invariant WF; its preservation is '
-             'proved for find_or_add, _ite, add_var/_init_terminal/declare, incref/decref, var (every clause W1-W9 re-established on every '
-             'path). "Equal references iff equal functions" is WF + lemma L-CANON (Lean). swap, undeclare_vars, collect_garbage and the '
+             'proved for find_or_add, _ite, add_var/_init_terminal/declare, incref/decref, var and collect_garbage (every clause W1-W9 '
+             're-established on every path). "Equal references iff equal functions" is WF + lemma L-CANON (Lean). swap, undeclare_vars, collect_garbage and the '
              'loaders rewrite tables wholesale and are decided by the bounded stand-in (five construction routes must agree for every function '
              'of <= 3 variables under every order; wf() after every step of histories). Category "other": mixed proof + bounded.',
-             bounded=['vlib.rtc.c02'], tb=['swap, undeclare_vars, collect_garbage, pickle/JSON loaders: bounded only'],
+             bounded=['vlib.rtc.c02'], tb=['swap, undeclare_vars, pickle/JSON loaders: bounded only'],
              design_ref='DESIGN.md 7/C02'),
     'C03': P('proof',
              '_quantify is proved against the ghost family QE(Q, A) (existential/universal closure maps maintained at node creation): '
@@ -59,11 +59,14 @@ PROPS = {
              design_ref='DESIGN.md 7/C05'),
     'C06': P('other',
              'The count invariant RC (ref = stored in-edges + external references, ghost in-degree updated by the engine at node creation) '
-             'is proved for incref, decref, ref and find_or_add on every path. collect_garbage and swap (closures, set.pop loop, in-place '
-             'rewrites) are outside the generator and decided by the bounded stand-in: exact ledger, wf(), computed-table validity and '
-             'denotations after every step of random and enumerated histories; after each full collection stored nodes == reachable from '
-             'held. "Exactly the reachable remain" additionally uses lemma L-REACH (Lean).',
-             bounded=['vlib.rtc.c06'], tb=['collect_garbage, swap: bounded only'], design_ref='DESIGN.md 7/C06'),
+             'is proved for incref, decref, ref and find_or_add on every path, and collect_garbage is proved for both forms (full and '
+             'rooted) with a loop invariant over the abstract work set: only nodes with count 0 are removed, survivors keep shape, '
+             'denotation and external count, every node with an external reference survives, after a full collection no unreferenced '
+             'node is left, the computed table is emptied (nothing remembered for a re-usable number), WF re-established. The two '
+             'definitional facts about the ghost in-degree used at node deletion are modelling axioms (trusted base). "Exactly the '
+             'reachable remain" = this + lemma L-REACH (Lean). swap is outside the generator: bounded stand-in (exact ledger, wf(), '
+             'computed-table validity, denotations after every step of random and enumerated histories).',
+             bounded=['vlib.rtc.c06'], tb=['swap: bounded only', 'BDD.__del__ (generator expression): bounded only'], design_ref='DESIGN.md 7/C06'),
     'C07': P('exploration',
              'BDD.swap rewrites two levels in place through temporarily inconsistent tables (five loops over dict views): outside the VC '
              'generator. Decided by run-time contracts: every function of 3 variables and sampled sets over 4-6 variables under every '
@@ -76,9 +79,13 @@ PROPS = {
              'incref/decref) is proved under C06. CPython runs __del__ exactly once per handle: assumed.',
              proof=False, bounded=['vlib.rtc.c08'], tb=['CPython finaliser semantics'], design_ref='DESIGN.md 7/C08'),
     'C09': P('other',
-             'Proved: _request_reordering raises the signal only when requests are enabled, state unchanged; every contract under C01-C04 '
-             'carries a raises-clause (the signal propagates only if requests are enabled, with WF and Ext kept) and decorated calls are '
-             'composed with the wrapper schema (ctx restored, reordering still enabled). Decided by the bounded stand-in: the request is '
+             'Proved: _request_reordering raises the signal only when requests are enabled, state unchanged; _ReorderingContext '
+             '__init__/__enter__/__exit__ (flag saved and restored on every exit, the signal swallowed only at nesting depth 0); the '
+             'decorator _try_to_reorder._wrapper against an abstract decorated function (uninterpreted pre/postcondition): the signal '
+             'reaches the caller only when nested, the nesting flag is restored, reordering is enabled afterwards iff it was before, a '
+             'call in which nothing fires returns exactly the function\'s result; _suspend_reordering._wrapper restores the setting on '
+             'every exit; every contract under C01-C04/C11 carries a raises-clause for the signal (WF and Ext kept on that exit). The '
+             'denotation after a reordering that fires uses the ASSUMED contract of reorder() (C07, bounded). Decided by the bounded stand-in: the request is '
              'fired at every k-th node creation of every public operation (dd.bdd with referenced operands, dd.autoref) and compared '
              'with the truth-table oracle.',
              bounded=['vlib.rtc.c09'], tb=['reorder()/swap contract assumed (C07 bounded)'], design_ref='DESIGN.md 7/C09'),
